@@ -244,7 +244,101 @@ func init() {
 		}
 		matchShape("sorted() (return)", stmtText(fsB, rest[len(rest)-1]), `{ return l }`)
 
-		return "From Coq Require Import List String. Import ListNotations.\n" +
+		// ---------------------------------------------------------------- pyRange.Len
+		// the body becomes a Gallina function over Z: Go's int + and - as Z.add / Z.sub, a compound operand of / wrapped
+		// to 64 bits (`wrap`), / as Z.quot, <= as Z.leb, || as orb, `if c { return 0 }; return e` as if-then-else
+		lenFn := findFunc(fo, "pyRange", "Len")
+		if lenFn == nil || lenFn.Body == nil {
+			failShape("pyRange.Len not found")
+		}
+		var zexpr func(e ast.Expr) (string, bool)
+		zexpr = func(e ast.Expr) (string, bool) { // the term, and whether it is a leaf (a field or a literal)
+			switch x := e.(type) {
+			case *ast.ParenExpr:
+				return zexpr(x.X)
+			case *ast.BasicLit:
+				if x.Kind != token.INT {
+					failShape("pyRange.Len: literal %s", x.Value)
+				}
+				return x.Value + "%Z", true
+			case *ast.SelectorExpr:
+				switch types.ExprString(x) {
+				case "r.Start":
+					return "start", true
+				case "r.Stop":
+					return "stop", true
+				case "r.Step":
+					return "step", true
+				}
+			case *ast.CallExpr:
+				if types.ExprString(x.Fun) == "int" && len(x.Args) == 1 {
+					return zexpr(x.Args[0])
+				}
+			case *ast.BinaryExpr:
+				a, la := zexpr(x.X)
+				b, lb := zexpr(x.Y)
+				switch x.Op {
+				case token.ADD:
+					return "(Z.add " + a + " " + b + ")", false
+				case token.SUB:
+					return "(Z.sub " + a + " " + b + ")", false
+				case token.QUO:
+					if !la {
+						a = "(wrap " + a + ")"
+					}
+					if !lb {
+						b = "(wrap " + b + ")"
+					}
+					return "(Z.quot " + a + " " + b + ")", false
+				}
+			}
+			failShape("pyRange.Len: unrecognised expression %s", types.ExprString(e))
+			return "", false
+		}
+		var zcond func(e ast.Expr) string
+		zcond = func(e ast.Expr) string {
+			switch x := e.(type) {
+			case *ast.ParenExpr:
+				return zcond(x.X)
+			case *ast.BinaryExpr:
+				switch x.Op {
+				case token.LOR:
+					return "(orb " + zcond(x.X) + " " + zcond(x.Y) + ")"
+				case token.LEQ:
+					a, _ := zexpr(x.X)
+					b, _ := zexpr(x.Y)
+					return "(Z.leb " + a + " " + b + ")"
+				}
+			}
+			failShape("pyRange.Len: unrecognised condition %s", types.ExprString(e))
+			return ""
+		}
+		var zbody func(l []ast.Stmt) string
+		zbody = func(l []ast.Stmt) string {
+			if len(l) == 0 {
+				failShape("pyRange.Len: falls off the end")
+			}
+			switch st := l[0].(type) {
+			case *ast.ReturnStmt:
+				if len(st.Results) != 1 || len(l) != 1 {
+					failShape("pyRange.Len: unrecognised return")
+				}
+				r, _ := zexpr(st.Results[0])
+				return r
+			case *ast.IfStmt:
+				if st.Init != nil || st.Else != nil {
+					failShape("pyRange.Len: unrecognised if")
+				}
+				return "(if " + zcond(st.Cond) + " then " + zbody(st.Body.List) + " else " + zbody(l[1:]) + ")"
+			}
+			failShape("pyRange.Len: unrecognised statement")
+			return ""
+		}
+		rangeLen := zbody(lenFn.Body.List)
+
+		return "From Coq Require Import List String ZArith. Import ListNotations.\n" +
+			"(* pyRange.Len (objects.go): Go int arithmetic over Z; wrap = reduction to a signed 64-bit int *)\n" +
+			"Definition pyrange_len (wrap : Z -> Z) (start stop step : Z) : Z := " + rangeLen + ".\n" +
 			"(* pyDict.Operator, case Union (objects.go), statement by statement *)\n" +
 			"Inductive uside := ULeft | URight.\n" +
 			"Inductive ustep :=\n" +
